@@ -861,7 +861,7 @@ def shrink_case(runner, c, a, bad):
               "meta": dict(c["meta"], history="none")}
         st = new_stats()
         hits = []
-        r2 = DocRunner(runner.ctx, st)
+        r2 = DocRunner(runner.ctx, st, defer=True)
         r2.fail = lambda cc, aa, bb, ll, pp=None: hits.append(bb)
         r2.run_cases([c2], "shrink")
         return any(b[0].startswith(kind0) for b in hits)
@@ -1123,14 +1123,22 @@ def report_deferred(ctx, runner, deferred, rng, stats):
     for a failing document (layouts that put text behind the last import on its line) found nothing."""
     fails = [d for d in deferred if d[0] == "fail"]
     ties = [d for d in deferred if d[0] == "tie"]
-    for _, c, a, bad, label in fails[:3]:
+    def pick(fs):
+        # up to three failures, preferring different kinds of failure
+        seen, out = set(), []
+        for f in fs:
+            k = f[3][0][:30]
+            if k not in seen:
+                seen.add(k); out.append(f)
+        return (out + [f for f in fs if f not in out])[:3]
+    for _, c, a, bad, label in pick(fails):
         runner.fail(c, a, bad, label)
     if ties and not fails:
         batches = [[gen_case(rng.fork(), tight=t) for t in ("class_starts", "class_complete", "block_comment", "one_line") * 12]
                    for _ in range(4)]
         more = run_doc_batches(ctx, batches, rng, stats, "search after aimp disagreement")
         found = [d for d in more if d[0] == "fail"]
-        for _, c, a, bad, label in found[:3]:
+        for _, c, a, bad, label in pick(found):
             runner.fail(c, a, bad, label)
         if not found:
             ctx.violation("model/implementation disagreement on protocol aimp (generate_auto_import_edits); no failing "
@@ -1196,17 +1204,20 @@ def run(ctx):
             check_diffs(ctx, batch, f"generated seed={ctx.seed}", stats)
         # documents
         runner = DocRunner(ctx, stats)
+        corpus_runner = DocRunner(ctx, stats, defer=True)
         for name, case in cdocs:
             case.setdefault("meta", {"history": "corpus", "imports": -1})
-            runner.run_cases([case], f"corpus/{name}")
+            corpus_runner.run_cases([case], f"corpus/{name}")
         ndocs = ctx.scale(1040, 20000)
-        if not ctx.violations:
+        if ctx.violations:
+            report_deferred(ctx, runner, corpus_runner.deferred, rng, stats)
+        else:
             batches = []
             done = 0
             while done < ndocs:
                 batches.append([gen_case(rng.fork(), want_nosemi=rng.chance(1, 8)) for _ in range(min(65, ndocs - done))])
                 done += len(batches[-1])
-            deferred = run_doc_batches(ctx, batches, rng, stats, f"generated documents seed={ctx.seed}")
+            deferred = corpus_runner.deferred + run_doc_batches(ctx, batches, rng, stats, f"generated documents seed={ctx.seed}")
             report_deferred(ctx, runner, deferred, rng, stats)
         # general module-diff oracle
         nmd = ctx.scale(1500, 30000)
@@ -1227,7 +1238,8 @@ def run(ctx):
         "distinct_nontrivial": stats["nontrivial_pairs"] + len(stats["distinct_actions"]) + len(stats["md_nontrivial"]),
         "rule": ("(a) list pairs: all pairs over {0,1,2} up to a length bound + random structured pairs (append-one, "
                  "edits of old, random, full replace, empty, equal, long, duplicates-only); a pair is non-trivial if its "
-                 "script has a replace (fusion ran) or >= 2 changes; (b) documents: generated import headers (0-4 imports, "
+                 "script has a replace (fusion ran) or >= 2 changes; (b) documents: generated import headers (0-4 imports, tight layouts = class / block comment / whole document "
+                 "on the last import's line, random line breaks or none between toplevels, "
                  "6 layouts, comments/blank lines/CRLF between, optional ';' also on the last import) x use site of an "
                  "unimported class x class/module names short (inline PStr) or >= 16 bytes (heap PStr, subject to the "
                  "server GC) x edit history (none, pre_mention = 1-3 unrelated updates before the document first mentions "
